@@ -8,6 +8,7 @@ import (
 	"net/http"
 	"net/http/httptest"
 	"net/url"
+	"regexp"
 	"sort"
 	"strings"
 	"time"
@@ -16,6 +17,8 @@ import (
 )
 
 func sortStrings(s []string) { sort.Strings(s) }
+
+var regexpCode = regexp.MustCompile(`(?:^|&)code=([^&]*)`)
 
 // Obs is everything observable about one executed step.
 type Obs struct {
@@ -57,6 +60,9 @@ type Obs struct {
 	Presented []Presented
 	raters    []func() Presented
 	Replay    bool // the very same request as this browser's previous one, sent again
+	// CodeUnused: the OAuth2 authorisation code carried by the request had not
+	// been redeemed at the provider when the request was sent
+	CodeUnused bool
 	// target account as resolved (-1 unknown)
 	Acct int
 }
@@ -442,6 +448,7 @@ func (w *World) Exec(n int, st *Step) *Obs {
 		case "fresh":
 			u := w.idpUser(st)
 			q.Set("code", w.IdP.Grant(u))
+			o.CodeUnused = true
 		case "replay":
 			// newest already used code
 			best := ""
@@ -451,6 +458,7 @@ func (w *World) Exec(n int, st *Step) *Obs {
 				}
 			}
 			q.Set("code", best)
+			o.CodeUnused = false
 		case "none":
 		default:
 			q.Set("code", st.str("code"))
@@ -475,6 +483,11 @@ func (w *World) Exec(n int, st *Step) *Obs {
 		orig.Gap = st.Gap
 		o.Step = &orig
 		o.Replay = true
+		if m := regexpCode.FindStringSubmatch(lr.rawq); m != nil {
+			if g := w.IdP.codes[unesc(m[1])]; g != nil {
+				o.CodeUnused = !g.used
+			}
+		}
 		o.Acct = orig.A
 		o.raters = lr.raters
 		return w.doRequest(o, st, lr.method, lr.path, lr.rawq, lr.body, lr.ctype)
